@@ -539,6 +539,25 @@ theorem acceptance_port_answered_exactly_once (c : CaseCfg) (steps : List Step) 
   have := acceptance_port_conservation c steps i
   omega
 
+/-- (a port is never left dangling by a running factory) While the factory actor has not exited, no acceptance port has
+been dropped unanswered: `portClosed` occurs only when the factory exits with the dispatch still unread in its mailbox. -/
+theorem acceptance_port_closed_only_at_exit (c : CaseCfg) (steps : List Step)
+    (hx : ((init c).runSteps steps).exited = false) (i : Nat) :
+    Ev.portClosed i ∉ ((init c).runSteps steps).env.log :=
+  port_closed_only_at_exit_run c steps hx i
+
+/-- (answered exactly once BY A REPLY while the factory runs) If the factory has not exited, a port-carrying dispatch of `i`
+that has left the mailbox has received exactly one `None`/`Some(job)`. -/
+theorem acceptance_port_replied_exactly_once (c : CaseCfg) (steps : List Step) (i : Nat)
+    (hx : ((init c).runSteps steps).exited = false)
+    (h1 : ((init c).runSteps steps).env.log.countP (isPortDispatchEv i) = 1)
+    (hp : pendingPorts i ((init c).runSteps steps).inbox = 0) :
+    ((init c).runSteps steps).env.log.countP (isReplyEv i) = 1 := by
+  have h2 := acceptance_port_answered_exactly_once c steps i h1 hp
+  have h3 := acceptance_port_closed_only_at_exit c steps hx
+  rw [countP_reply_eq i _ h3]
+  exact h2
+
 /-- (no unrequested answer) a job dispatched without a port never gets an answer -/
 theorem acceptance_port_no_unrequested_answer (c : CaseCfg) (steps : List Step) (i : Nat)
     (h0 : ((init c).runSteps steps).env.log.countP (isPortDispatchEv i) = 0) (b : Bool) :
@@ -628,3 +647,5 @@ end C13
 #print axioms C13.rate_limited_discard_needs_limiter
 #print axioms C13.shutdown_discard_only_after_drain
 #print axioms C13.no_shutdown_discard_without_drain
+#print axioms C13.acceptance_port_closed_only_at_exit
+#print axioms C13.acceptance_port_replied_exactly_once
